@@ -1,31 +1,75 @@
 (* C18 - property theorems only (DESIGN.md 6.C18).
    Model: Text/LinuxParse.v (hwloc__read_path_as_cpumask / _as_cpulist of
    hwloc/topology-linux.c over checked byte strings, the kernel printers they
-   invert, the disallowed-view checker).  Proofs: Text/LinuxParseProofs.v.
+   invert, the disallowed-view checker).
+   Proofs: Text/LinuxParseProofs.v, Text/LinuxParseListProofs.v.
+
    The Linux/x86 backends themselves are not modelled: for them the property is
-   decided per run by checks/c18.py with the verified checkers on the real
-   code's outputs.  pipeline_deterministic is a statement about a Gallina
-   function and therefore immediate; it is not claimed as a theorem: the
-   determinism of the C pipeline is what the repeated loads of the check test. *)
+   decided per run by checks/c18.py with the verified checkers (wf_check of C01,
+   disallowed_check below) and dump equalities on the real code's outputs.
+   "pipeline_deterministic" is a statement about a Gallina function and
+   therefore immediate; it is not claimed as a theorem: determinism of the C
+   pipeline is what the repeated loads of the check test. *)
 From Coq Require Import List NArith ZArith Bool String.
-From HV Require Import Base.BSet Base.Bytes Base.Strto Gen.Tables Topo.Dump Text.LinuxParse Text.LinuxParseProofs.
+From HV Require Import Base.BSet Base.Bytes Base.Strto Gen.Tables Topo.Dump
+  Text.LinuxParse Text.LinuxParseProofs Text.LinuxParseListProofs.
 Import ListNotations.
 Local Open Scope N_scope.
 
-(* "never undefined behaviour" is false for the cpulist parser: a value that is
-   INT_MAX as an int makes prevlast+1 overflow ("2147483647\n"); replayed on
-   the real code under UBSan by checks/c18.py (known finding cpulist-int-overflow). *)
-Theorem cpulist_no_overflow_refuted : exists c, cpulist_parse c = SignedOverflow.
-Proof. eexists. exact cpulist_overflow_witness. Qed.
-Print Assumptions cpulist_no_overflow_refuted.
+(* cpumask: for EVERY finite set f and every chunk count n >= 1 able to hold it,
+   the parser returns exactly f on the text the kernel prints ("%*pb\n":
+   n comma-separated 32-bit hex words, most significant first, leading zero
+   words included).  Independent of the nr_maps reallocation logic. *)
+Theorem cpumask_parse_exact : forall (n : nat) (f : N),
+  (1 <= n)%nat -> f < TWO32 ^ N.of_nat n ->
+  cpumask_parse (print_cpumask n f) = Parsed (bs_of_N f).
+Proof. exact cpumask_parse_print. Qed.
+Print Assumptions cpumask_parse_exact.
 
-(* parse o print = id is false at the empty set: the kernel prints it "\n",
-   which is read as {0} (known finding cpulist-empty-set). *)
+Example cpumask_parse_exact_nonvacuous :
+  (1 <= 3)%nat /\ 18446744082299486463 < TWO32 ^ N.of_nat 3 /\
+  print_cpumask 3 18446744082299486463 = bytes_of_string "00000001,00000002,000000ff" ++ [NL].
+Proof. repeat split; try apply PeanoNat.Nat.leb_le; vm_compute; reflexivity. Qed.
+
+(* cpulist: parse o print = id is FALSE at the empty set: the kernel prints it
+   "\n", which is read as {0} (replayed on the real code by checks/c18.py,
+   known finding cpulist-empty-set). *)
 Theorem cpulist_parse_exact_refuted : exists f, cpulist_parse (print_cpulist f) <> Parsed (bs_of_N f).
 Proof.
   exists 0. destruct cpulist_empty_witness as [H1 H2]. rewrite H1. intros E. apply H2. now injection E.
 Qed.
 Print Assumptions cpulist_parse_exact_refuted.
+
+(* ... and holds for EVERY non-empty finite set whose members are below INT_MAX
+   (the hypothesis excluding exactly the refuted class and the int range of
+   the C variables): text "a-b,c,...\n" of maximal runs (%*pbl). *)
+Theorem cpulist_parse_exact_partial : forall f : N,
+  f <> 0 -> N.log2 f < 2147483647 ->
+  cpulist_parse (print_cpulist f) = Parsed (bs_of_N f).
+Proof. exact cpulist_parse_print. Qed.
+Print Assumptions cpulist_parse_exact_partial.
+
+Example cpulist_parse_exact_nonvacuous :
+  3343 <> 0 /\ N.log2 3343 < 2147483647 /\
+  print_cpulist 3343 = bytes_of_string "0-3,8,10-11" ++ [NL].
+Proof. repeat split; try discriminate; vm_compute; reflexivity. Qed.
+
+(* Arbitrary file contents (any bytes, embedded NULs included): both parsers
+   terminate (the fuel is never exhausted) and never read outside the block
+   content ++ [NUL]; the cpumask parser always yields a set, the cpulist parser
+   a set or the signed-overflow trap. *)
+Theorem parse_total : forall content,
+  (exists s, cpumask_parse content = Parsed s) /\
+  (cpulist_parse content = SignedOverflow \/ exists s, cpulist_parse content = Parsed s).
+Proof. intros c. split; [apply cpumask_parse_total|apply cpulist_parse_total]. Qed.
+Print Assumptions parse_total.
+
+(* "never undefined behaviour" is false for the cpulist parser: a value that is
+   INT_MAX as an int makes prevlast+1 overflow ("2147483647\n"); replayed on
+   the real code under UBSan (known finding cpulist-int-overflow). *)
+Theorem cpulist_no_overflow_refuted : exists c, cpulist_parse c = SignedOverflow.
+Proof. eexists. exact cpulist_overflow_witness. Qed.
+Print Assumptions cpulist_no_overflow_refuted.
 
 (* The executable disallowed-view relation decides its Prop reading: every PU
    and NUMA node (by os_index) of the default dump is in the INCLUDE_DISALLOWED
